@@ -4,6 +4,7 @@ import GoNfsd.Driver.Fs
 import GoNfsd.Driver.Codec
 import GoNfsd.Driver.Kvs
 import GoNfsd.Driver.Simple
+import GoNfsd.Driver.Locks
 
 def main (args : List String) : IO UInt32 :=
   match args with
@@ -13,6 +14,7 @@ def main (args : List String) : IO UInt32 :=
   | ["codec"] => GoNfsd.Driver.Codec.main
   | ["kvs"] => GoNfsd.Driver.Kvs.main
   | ["simple"] => GoNfsd.Driver.Simple.main
+  | ["locks"] => GoNfsd.Driver.Locks.main
   | _ => do
     IO.eprintln "usage: drv <mkfs>"
     return 2
